@@ -14,3 +14,18 @@ Theorem C09_dtw_le_euclidean : forall u s1 s2,
   (adj_penalty u = 0%Z \/ length s1 = length s2) ->
   cle (dtw_value u s1 s2) (Fin (ed_model (u_inner u) s1 s2)).
 Proof. exact dtw_le_ed. Qed.
+
+(* The C LB_Keogh routines use the same envelope: their bounds, regenerated from dd_dtw.c, equal the ones
+   regenerated from dtw.lb_keogh on which lb_keogh_model (and C09_lb_keogh_le_dtw) is built. *)
+From DV Require Import CLb.
+From DVGen Require Import Gen_dtw Gen_clb.
+
+Theorem C09_c_envelope_is_python_envelope : forall l1 l2 window i,
+  (c_lb_keogh_imin i (c_lb_keogh_imin_diff l1 l2 window) = py_lb_imin i (py_lb_imin_diff l1 l2 window) /\
+   c_lb_keogh_imax i (c_lb_keogh_imax_diff l1 l2 window) l2 = py_lb_imax l2 i (py_lb_imax_diff l1 l2 window)) /\
+  (c_lb_keogh_euclidean_imin i (c_lb_keogh_euclidean_imin_diff l1 l2 window) = py_lb_imin i (py_lb_imin_diff l1 l2 window) /\
+   c_lb_keogh_euclidean_imax i (c_lb_keogh_euclidean_imax_diff l1 l2 window) l2 = py_lb_imax l2 i (py_lb_imax_diff l1 l2 window)).
+Proof.
+  intros. destruct (c_lb_keogh_envelope l1 l2 window i) as (_ & _ & A & B).
+  destruct (c_lb_keogh_euclidean_envelope l1 l2 window i) as (_ & _ & C & D). repeat split; assumption.
+Qed.
